@@ -185,7 +185,7 @@ pub fn disarm() -> SeamStats {
     }
 }
 
-pub const SIM_STACK: usize = 512 << 20;
+pub const SIM_STACK: usize = 64 << 20;
 
 /// Run `f` on a fresh simulated thread (fresh thread-locals, hence fresh hash keys derived
 /// from `hash_seed`; scripted clock; big lazily-committed stack) and return its result.
